@@ -200,7 +200,13 @@ def l1_l2(e: Engine, rep: Report):
                   'not self.pool')
         # the respawn condition must not be stronger than "requests pending
         # and pool empty": every path that establishes both reaches it
+        # any spelling of "requests are pending"
+        pending = {parse_atom(t) for t in (
+            '0 < len(self.queue)', 'len(self.queue) > 0',
+            'len(self.queue) >= 1', 'len(self.queue) != 0',
+            'not len(self.queue) == 0', 'self.queue', 'len(self.queue)')}
         extra = [a for a in (st or ()) if a not in need and
+                 a not in pending and
                  ('self.queue' in a[1] or 'self.pool' in a[1])]
         rep.check(not extra, 'L2', where,
                   'respawn whenever requests are pending and no client is '
